@@ -52,18 +52,20 @@ def gen(tier, rng):
             # gWCS gives the components of a 2-axis generic frame joined with another generic frame clashing
             # object keys (a dependency defect that merges their dropped coordinates), so a two-table Quantity
             # coordinate is only combined with Time / SkyCoord tables
-            has_mq = any(x[0] == "mq" for x in tabs)
+            has_mq = any(x[0] in ("mq", "mq3") for x in tabs)
             has_q = any(x[0] == "q" for x in tabs)
             kinds = ([] if has_mq else ["q", "q"]) + [k for k in ("time", "sky1") if not any(x[0] == k for x in tabs)] \
-                + (["mq"] if nd >= 2 and not has_mq and not has_q else [])
+                + (["mq"] if nd >= 2 and not has_mq and not has_q else []) \
+                + (["mq3"] if nd >= 3 and not has_mq and not has_q else [])
             if not kinds:
                 break
             k = rng.choice(kinds)
-            axes = sorted(rng.sample(range(nd), 2)) if k == "mq" else [rng.randrange(nd)]
+            axes = sorted(rng.sample(range(nd), 2)) if k == "mq" else (sorted(rng.sample(range(nd), 3)) if k == "mq3" else [rng.randrange(nd)])
             tabs.append([k, axes, rng.randrange(10 ** 6)])
         hist, cur = [], list(shape)
         names = []
         nslices = 0
+        node_shapes = [list(shape)]
         for _d in range(rng.randint(1, 5)):
             r = rng.random()
             if r < 0.45 and len(cur) > 1 and nslices < 3:
@@ -101,6 +103,7 @@ def gen(tier, rng):
                 if ok and new and 0 not in new and len(full) == len(cur):
                     cur = new
                     nslices += 1
+                    node_shapes.append(list(cur))
                 elif 0 in new or not new:
                     hist.pop()
             elif r < 0.8:
@@ -116,10 +119,20 @@ def gen(tier, rng):
                     names.remove(nm)
         if not any(h[0] == "slice" for h in hist):
             continue
-        key = f"{fam}|{shape}|{tabs}|{hist}"
-        cases.append({"key": key, "stratum": fam, "fam": fam, "shape": shape, "tabs": tabs, "hist": hist,
+        # branch phase: further slices of EARLIER cubes of the history (siblings of the final cube); they must
+        # not change what the final cube reports
+        branches = []
+        for _b in range(rng.choice([0, 0, 1, 2, 3])):
+            ni = rng.randrange(len(node_shapes))
+            bs = node_shapes[ni]
+            its = [rng.choice([0, sz - 1, -1, ["s", None, None, None], ["s", 1, None, None]]) for sz in bs]
+            if all(isinstance(i, int) for i in its) or any(isinstance(i, list) and i[1] == 1 and sz < 2 for i, sz in zip(its, bs)):
+                continue
+            branches.append([ni, its])
+        key = f"{fam}|{shape}|{tabs}|{hist}|{branches}"
+        cases.append({"key": key, "stratum": fam, "fam": fam, "shape": shape, "tabs": tabs, "hist": hist, "branches": branches,
                       "nontrivial": any(h[0] == "slice" and any(isinstance(i, int) for i in h[1]) for h in hist),
-                      "show": {"wcs": fam, "shape": shape, "extra_coords": tabs, "history": hist}})
+                      "show": {"wcs": fam, "shape": shape, "extra_coords": tabs, "history": hist, "then_slice_earlier_cubes": branches}})
     return cases
 
 
@@ -141,6 +154,10 @@ def build(case):
         elif kind == "sky1":
             v = _vals(n0, seed)
             cube.extra_coords.add((f"n{i}0", f"n{i}1"), axes[0], SkyCoord(np.abs(v) / 8 * u.deg, v / 16 * u.deg))
+        elif kind == "mq3":
+            cube.extra_coords.add((f"n{i}0", f"n{i}1", f"n{i}2"), tuple(axes),
+                                  tuple(_vals(shape[a], seed + j) * u.m for j, a in enumerate(axes)),
+                                  physical_types=(f"custom:n{i}0", f"custom:n{i}1", f"custom:n{i}2"))
         else:
             cube.extra_coords.add((f"n{i}0", f"n{i}1"), tuple(axes),
                                   (_vals(n0, seed) * u.m, _vals(shape[axes[1]], seed + 1) * u.m),
@@ -158,7 +175,7 @@ def _table_values(case, i):
     if kind == "sky1":
         v = _vals(shape[axes[0]], seed)
         return {10 * i: (axes[0], np.abs(v) / 8), 10 * i + 1: (axes[0], v / 16)}
-    return {10 * i: (axes[0], _vals(shape[axes[0]], seed)), 10 * i + 1: (axes[1], _vals(shape[axes[1]], seed + 1))}
+    return {10 * i + j: (a, _vals(shape[a], seed + j)) for j, a in enumerate(axes)}
 
 
 def _num(obj, want_unit=None):
@@ -184,6 +201,7 @@ def run(case):
     ptypes = list(pll.world_axis_physical_types)
     punits = list(pll.world_axis_units)
     raised, why = [], []
+    nodes = [cube]
     # reference bookkeeping
     ref_internal = []                     # [name, value]
     fixed = {}                            # original array axis -> index (after normalisation) for dropped axes
@@ -199,6 +217,7 @@ def run(case):
                 cube.global_coords.remove(f"u{h[1]}")
             else:
                 cube = cube[Q.dec_items(h[1])]
+                nodes.append(cube)
         except Exception as e:  # noqa
             exc = exc_name(e)
         raised.append(exc is not None)
@@ -262,6 +281,16 @@ def run(case):
     out = {"raised": raised, "internal": [], "wcs": [], "ec": []}
     if why:
         return {"out": _ser(out), "oracle": {"ok": False, "why": "; ".join(why), "finding": None}}
+    # ---- slice earlier cubes of the history again (results kept alive): the final cube must not notice
+    siblings = []
+    for ni, its in case.get("branches", []):
+        if ni < len(nodes):
+            try:
+                sib = nodes[ni][Q.dec_items(its)]
+                siblings.append(sib)
+                len(sib.global_coords)
+            except Exception:  # noqa
+                pass
     # ---- observe the final cube's global coords
     try:
         gc = cube.global_coords
@@ -353,7 +382,7 @@ def _model_table(case, i):
     tv = _table_values(case, i)
     names = sorted(tv)
     lens = [shape[a] for a in axes]
-    k = "KSep" if kind == "mq" else "KJoint"
+    k = "KSep" if kind in ("mq", "mq3") else "KJoint"
     vs = Q.lst([Q.lst([_fq(x) for x in tv[nm][1]]) for nm in names])
     return f"(mkT {Q.z(i)} {k} {Q.lst(axes, Q.z)} {Q.lst(lens, Q.z)} {Q.lst(names, Q.z)} {vs})"
 
